@@ -259,6 +259,13 @@ fn op_cli_export(payload: &str) -> String {
             if pm.width() == isz.width() && pm.height() == isz.height() {
                 let mut r = tiny_skia::Pixmap::new(isz.width(), isz.height()).unwrap();
                 resvg::render_node(node, Transform::identity(), &mut r.as_mut());
+                // the CLI image went through PNG (demultiply on save, premultiply on load), which is lossy for
+                // semi-transparent coloured pixels (paint-servers/pattern/with-patternTransform.svg: 38 pixels by one level):
+                // send the reference through the same encoding so that the comparison stays bit-exact
+                let r = match r.encode_png().ok().and_then(|b| tiny_skia::Pixmap::decode_png(&b).ok()) {
+                    Some(x) => x,
+                    None => r,
+                };
                 ndiff = diff_pixmaps(&pm, &r, 0).0 as i64;
             }
             out.push_str(&format!(",\"export\":{{\"size\":[{},{}],\"ndiff_vs_render_node\":{}}}", pm.width(), pm.height(), ndiff));
